@@ -6,7 +6,8 @@
 //        <again> = "=" when running the same operation a second time on the result leaves the canonical
 //        dump unchanged (idempotence observed on the real object), otherwise the second dump
 //   cleanup <bits> <geom>  MeshCleanup::Cleanup; bits: 1 degenerated, 2 duplicate, 4 unused, 8 manifold
-//                                                                     -> ok <geom'> | err | err-modified <geom'>
+//                                                                     -> ok <geom'> || <again> | err | err-modified <geom'>
+//        <again> = "=" when a second Cleanup with the same options leaves the dump unchanged
 //   strips <0|1> <geom>    MeshStripifier, 1 = primitive restart with index 0xFFFFFFFF, 0 = degenerate triangles
 //                                                                     -> ok <indicesCSV> | fail
 //   buildmesh <nf> <na> {<attType> <dt> <nc> <nz> <kinds> <hex>}*     TriangleSoupMeshBuilder -> <geom> || <again> | null
@@ -170,8 +171,11 @@ VH_OP(cleanup) {
   const std::string before = dump(g);
   const Status s = MeshCleanup::Cleanup(g.mesh, o);
   const std::string after = dump(g);
-  if (s.ok()) return "ok " + after;
-  return before == after ? std::string("err") : "err-modified " + after;
+  if (!s.ok()) return before == after ? std::string("err") : "err-modified " + after;
+  // a second run with the same options (theorem cleanup_idempotent: the model returns its input)
+  const Status s2 = MeshCleanup::Cleanup(g.mesh, o);
+  const std::string again = dump(g);
+  return "ok " + after + " || " + (s2.ok() && again == after ? std::string("=") : (s2.ok() ? "ok " : "err ") + again);
 }
 
 VH_OP(strips) {
